@@ -39,6 +39,11 @@ RULES = {
     "part of the file cases of edits and mounted) - file views / file response apps of 0, 64, 200, 70000, 140000 bytes x {no Range, single, suffix, open, two and three "
     "ranges, unsatisfiable, malformed} x GET / HEAD x stacks of 1..3 middlewares (identity, observing, editing), view decorators, decorators below middlewares; Files / Pages / "
     "mounts behind layers; apps with no use for the extension; status, header multiset and body bytes as everywhere; non-trivial = every case",
+    "zcraw": "enumerated: raw ASGI applications and views returning a response object of a foreign class that use the zero-copy send extension themselves when the scope offers "
+    "it (x_c20 `file_ops`: a file of position-identifying bytes the application opens): one event with offset+count / offset only / count only after a seek or a read of a preamble / "
+    "neither, several count-only events in sequence, reads and seeks between events, events mixed with ordinary body chunks, count beyond the end of the file, count 0, at EOF, files "
+    "above 64 KiB; last event final or followed by an empty body message; correct Content-Length x 1..3 identity / observing / editing middlewares, view decorators (also below "
+    "middlewares), and the same application without the offer; the bare application is compared with a pure-Python reference of the extension's position semantics; also drawn in xstacks",
     "xstacks": "Hypothesis companion of the enumerated sub-checks: raw apps (header lines drawn from all shape blocks, chunks incl. 64 KiB-boundary sizes, omitted ASGI keys), "
     "views of every response class except event streams, mounted apps x 0..2 decorator layers + 0..3 middleware layers with free-form edits x GET / POST / HEAD / DELETE",
 }
@@ -283,9 +288,11 @@ def oracle_x(case) -> Result:
         ctx = f"{side} inner {inner!r} layers {layers!r} request {rqd!r}"
         if inner["app"] == "xraw" and not inner.get("raises"):
             # the bare raw application involves no code under test: it must come out as written in the recipe
-            ref = (int(inner["status"][:3]), fold([(k, v) for k, v in inner["headers"]]), b"".join(x_c20.expand(inner["chunks"])))
+            ref = (int(inner["status"][:3]), fold([(k, v) for k, v in inner["headers"]]), x_c20.reference_body(inner))
             if bare.exc is not None or (bare.status_code, fold(bheads), bare.body) != ref:
                 raise core.HarnessError(f"bare raw application differs from its recipe: {ctx}: {bare.exc!r} {bare.status_code} {fold(bheads)!r}")
+        if inner["app"] == "xview" and inner.get("file_ops") and (bare.exc is not None or bare.body != x_c20.reference_body(inner)):
+            raise core.HarnessError(f"bare file_ops view differs from the reference of its recipe: {ctx}: {bare.exc!r} {bare.body[:60]!r}")
         # every layer's handler is entered exactly once, the innermost application (view, raw application,
         # response object; none when a router answers 404 itself) as often as without layers and at most once
         ran = sorted(c[1] for c in wbuilt.calls if c[0] == "mw")
@@ -532,6 +539,78 @@ def zerocopy_cases(quick=True):
             yield {"inner": inner, "layers": layers, "request": {"method": "GET", "zerocopy": True}}
 
 
+def _zc(offset=None, count=None):
+    return {"zc": {k: v for k, v in (("offset", offset), ("count", count)) if v is not None}}
+
+
+# (file size, ops): how a raw / foreign ASGI application may use the zero-copy send extension itself
+ZC_OPS = {
+    "offset+count": (100, [_zc(10, 30)]),
+    "offset-only": (100, [_zc(40)]),
+    "offset-0": (100, [_zc(0, 100)]),
+    "count-after-seek": (100, [{"seek": 16}, _zc(None, 24)]),
+    "count-after-read": (100, [{"read": 16}, _zc(None, 24)]),
+    "neither-after-seek": (100, [{"seek": 16}, _zc()]),
+    "neither-after-read": (100, [{"read": 7}, _zc()]),
+    "neither-from-start": (100, [_zc()]),
+    "count-only-sequence": (100, [{"seek": 8}, _zc(None, 10), _zc(None, 20), _zc(None, 5)]),
+    "count-then-rest": (100, [_zc(None, 10), _zc()]),
+    "sequence-with-reads-between": (100, [_zc(None, 8), {"read": 8}, _zc(None, 8), {"seek": 64}, _zc(None, 8)]),
+    "mixed-with-body-chunks": (100, [{"body": b"head:"}, {"seek": 5}, _zc(None, 10), {"body": b"|mid|"}, _zc(None, 10), {"body": b"tail"}]),
+    "body-offset-body": (100, [{"body": b"pre"}, _zc(50, 10), {"body": b"post"}]),
+    "two-offsets": (100, [_zc(60, 10), _zc(20, 10)]),
+    "count-beyond-end": (100, [{"seek": 90}, _zc(None, 50)]),
+    "offset-count-beyond-end": (100, [_zc(95, 50)]),
+    "count-zero-first": (100, [{"seek": 30}, _zc(None, 0), _zc(None, 10)]),
+    "offset-count-zero": (100, [_zc(10, 0), {"body": b"x"}]),
+    "at-eof": (100, [{"seek": 100}, _zc()]),
+    "big-rest-after-seek": (200000, [{"seek": 1000}, _zc()]),
+    "big-count-sequence": (200000, [{"read": 3}, _zc(None, 70000), _zc(None, 70000), _zc()]),
+    "big-offset+count": (200000, [_zc(65536, 65537)]),
+}
+
+
+def zc_inner(name, final="op", view=False, extra_headers=()):
+    size, ops = ZC_OPS[name]
+    spec = {"size": size, "ops": ops, "final": final}
+    n = len(x_c20.reference_body({"file_ops": spec}))
+    if view:
+        return {"app": "xview", "file_ops": spec, "status": 200, "headers": dict([["content-type", "application/octet-stream"], ["content-length", str(n)], ["x-inner", "orig"]] + [list(h) for h in extra_headers]), "label": name}
+    return xraw([["Content-Type", "application/octet-stream"], ["Content-Length", str(n)], ["X-Inner", "orig"], ["Set-Cookie", "a=1"], ["Set-Cookie", "b=2"]] + [list(h) for h in extra_headers], [], file_ops=spec, label=name)
+
+
+def zcraw_cases(quick=True):
+    """Inner applications that use the zero-copy send extension themselves (baize's own FileResponse always names an
+    offset; the extension also allows `from the descriptor's current position` and `to the end of the file`)."""
+    stacks_raw = [[mw()], [mw(), mw()], [mw(), mw("observe"), mw()], [mw("set", name="X-Inner", value="replaced")], [mw("cookie", name="mw_c", value="1"), mw()]]
+    stacks_view = [[deco()], [deco("set", name="X-Inner", value="replaced")], [deco(), mw()], [deco("cookie", name="mw_c", value="1"), mw(), mw()], [mw()]]
+    for name in ZC_OPS:
+        big = name.startswith("big")
+        for final in ("op", "empty-body"):
+            for stacks, view in ((stacks_raw, False), (stacks_view, True)):
+                for i, layers in enumerate(stacks[:2] if big and quick else stacks):
+                    yield {"inner": zc_inner(name, final, view), "layers": layers, "request": {"method": "GET", "zerocopy": True}}
+                    if i == 0 and final == "op":
+                        # the same application when the server does not offer the extension (it sends the bytes itself)
+                        yield {"inner": zc_inner(name, final, view), "layers": layers, "request": {"method": "GET", "zerocopy": False}}
+
+
+@st.composite
+def zc_ops(draw):
+    size = draw(st.sampled_from([1, 64, 100, 100, 65537]))
+    pos = st.integers(0, size)
+    if draw(st.booleans()):
+        # offset-less messages: the descriptor's position matters
+        ops = draw(st.lists(st.one_of(pos.map(lambda k: {"seek": k}), st.integers(0, 9).map(lambda k: {"read": k}), st.integers(0, size + 5).map(lambda c: _zc(None, c)),
+                                      st.sampled_from([b"", b"chunk"]).map(lambda b: {"body": b})), min_size=1, max_size=5))
+        if draw(st.booleans()):
+            ops.append(_zc())
+    else:
+        ops = draw(st.lists(st.one_of(st.tuples(pos, st.one_of(st.none(), st.integers(0, size + 5))).map(lambda t: _zc(*t)), st.sampled_from([b"", b"chunk"]).map(lambda b: {"body": b})),
+                            min_size=1, max_size=4))
+    return {"size": size, "ops": ops, "final": draw(st.sampled_from(["op", "empty-body"]))}
+
+
 _TREE = {"a.txt": b"hello file", "sub/index.html": b"<p>index</p>", "sub/b.bin": bytes(range(64))}
 _ECHO = {"app": "echo", "order": ["body"]}
 MOUNTED = {
@@ -603,7 +682,16 @@ def x_case(draw):
     depth 0..3 with free-form edits."""
     kind = draw(st.sampled_from(["xraw", "xraw", "xview", "mounted"]))
     rq = {"method": draw(st.sampled_from(["GET", "GET", "POST", "HEAD", "DELETE"]))}
-    if kind == "xraw":
+    if kind == "xraw" and draw(st.integers(0, 3)) == 0:
+        spec = draw(zc_ops())
+        view = draw(st.booleans())
+        n = str(len(x_c20.reference_body({"file_ops": spec})))
+        if view:
+            kind = "xview"
+            inner = {"app": "xview", "file_ops": spec, "status": draw(st.sampled_from([200, 206, 299])), "headers": {"content-length": n, "x-inner": "orig"}}
+        else:
+            inner = xraw([["Content-Length", n], ["X-Inner", "orig"], ["Set-Cookie", "a=1"]], [], file_ops=spec, status=draw(st.sampled_from(["200 OK", "206 Partial Content"])))
+    elif kind == "xraw":
         heads = draw(st.lists(st.sampled_from([h for hs in SHAPE_HEADERS.values() for h in hs] + [["Content-Type", "text/plain"], ["X-Inner", "orig"], ["x-inner", "lower"], ["Vary", "Accept"]]), max_size=6))
         chunks = draw(st.lists(st.one_of(st.sampled_from([b"", b"hello", b"\x00\xff"]), st.sampled_from([1, 65535, 65536, 65537, 131072]).map(lambda n: {"pat": n})), max_size=3))
         inner = xraw(heads, chunks, status=draw(st.sampled_from(["200 OK", "201 Created", "404 Not Found", "599 Custom", "204 No Content"])), returns=draw(st.sampled_from(["list", "generator"])),
@@ -645,7 +733,7 @@ def x_case(draw):
     return {"inner": inner, "layers": layers, "request": rq}
 
 
-SUBS = {"stacks": oracle, "grid": oracle, "zerocopy": oracle_x, "shapes": oracle_x, "edits": oracle_x, "mounted": oracle_x, "errors": oracle_x, "xstacks": oracle_x}
+SUBS = {"stacks": oracle, "grid": oracle, "zerocopy": oracle_x, "zcraw": oracle_x, "shapes": oracle_x, "edits": oracle_x, "mounted": oracle_x, "errors": oracle_x, "xstacks": oracle_x}
 
 
 _raw_headers = st.lists(
@@ -729,11 +817,11 @@ def run(rec, only=None):
     quick = rec.tier == "quick"
     core.drive_cases(rec, "grid", grid_cases(), oracle)
     rec.exhaustive["grid"] = True
-    for sub, cases in (("shapes", shape_cases(quick)), ("edits", edit_cases()), ("mounted", mounted_cases()), ("errors", error_cases()), ("zerocopy", zerocopy_cases(quick))):
+    for sub, cases in (("shapes", shape_cases(quick)), ("edits", edit_cases()), ("mounted", mounted_cases()), ("errors", error_cases()), ("zerocopy", zerocopy_cases(quick)), ("zcraw", zcraw_cases(quick))):
         core.drive_cases(rec, sub, cases, oracle_x)
         rec.exhaustive[sub] = True
     core.drive_cases(rec, "edits", edit_range_cases(), oracle_x)
-    core.drive_hypothesis(rec, "stacks", stack_case(), oracle, 1200 if quick else 25000)
+    core.drive_hypothesis(rec, "stacks", stack_case(), oracle, 1200 if quick else 200000)
     rec.exhaustive["stacks"] = False
-    core.drive_hypothesis(rec, "xstacks", x_case(), oracle_x, 500 if quick else 12000)
+    core.drive_hypothesis(rec, "xstacks", x_case(), oracle_x, 500 if quick else 100000)
     rec.exhaustive["xstacks"] = False
